@@ -182,7 +182,8 @@ func extractRecv(
 
 func extractAnonChainRecv(env *object.Env) (object.PanObject, *object.PanErr) {
 	// recv is 1st arg in current env
-	self, ok := env.Get(object.GetSymHash(`\1`))
+	// NOTE: refer only args of the current call (not of the enclosing func)
+	self, ok := env.Store[object.GetSymHash(`\1`)]
 	if !ok {
 		return nil, object.NewNameErr("name `\\1` is not defined")
 	}
